@@ -96,6 +96,41 @@ fn same_as_strict(api: &'static str, case: &mut Case, strict: Option<&Vec<RLayer
     }
 }
 
+/// clause (2), differential part: where strict parsing fails on a fault that lax parsing cannot recover from either
+/// (the reference stops at the same place in both modes), the stop error lax records is the very fault strict reports
+fn same_fault_as_strict(api: &'static str, case: &mut Case, strict_err: Option<CErr>, lax_stop: Option<&(CErr, Layer)>, strict_want: &RefResult, lax_want: &RefResult) {
+    if let (Some(se), Some((le, _))) = (strict_err, lax_stop) {
+        let same_place = match (&strict_want.stop, &lax_want.stop) {
+            (Some(a), Some(b)) => a.off == b.off && a.kind == b.kind && a.faults == b.faults && a.avail == b.avail,
+            _ => false,
+        };
+        let multi = strict_want.stop.as_ref().map(|s| s.faults.len() > 1).unwrap_or(false);
+        // the length source may legitimately be stated less precisely by one of the two (the slice instead of the field
+        // that bounds the data: C07 allows the slice everywhere); everything else has to coincide
+        let norm = |e: &CErr, other: &CErr| -> CErr {
+            match (e, other) {
+                (CErr::Len { required, len, src, layer, off }, CErr::Len { src: s2, .. }) if *src == crate::pkt::refdec::Src::Slice || *s2 == crate::pkt::refdec::Src::Slice => {
+                    let _ = src;
+                    CErr::Len { required: *required, len: *len, src: crate::pkt::refdec::Src::Slice, layer: *layer, off: *off }
+                }
+                (e, _) => e.clone(),
+            }
+        };
+        let (se, le) = (norm(&se, le), norm(le, &se));
+        let le = &le;
+        if same_place && !multi && se != *le {
+            let what = match (&se, le) {
+                (CErr::Len { off: o1, .. }, CErr::Len { off: o2, .. }) if o1 != o2 => "offset",
+                (CErr::Len { src: s1, .. }, CErr::Len { src: s2, .. }) if s1 != s2 => "len_source",
+                (CErr::Len { layer: l1, .. }, CErr::Len { layer: l2, .. }) if l1 != l2 => "layer",
+                (CErr::Len { .. }, CErr::Len { .. }) => "lengths",
+                _ => "kind",
+            };
+            case.fail(format!("stop-error-differs-from-strict-error:{}:{}:{}", api, what, se.class()), format!("{}: strict parsing fails with {:?}, lax records {:?} for the same fault", api, se, le));
+        }
+    }
+}
+
 fn stop_of(e: &Option<(err::packet::SliceError, Layer)>) -> Option<(CErr, Layer)> {
     e.as_ref().map(|(e, l)| (e.cerr(), *l))
 }
@@ -234,7 +269,9 @@ pub fn check_case(door: Door, b: &[u8], case: &mut Case) {
             case.at("LaxSlicedPacket::from_ethernet");
             let r = LaxSlicedPacket::from_ethernet(b);
             let (got, lerr) = lax_sliced_result(b, r.as_ref().map_err(|e| e.cerr()));
-            let s = SlicedPacket::from_ethernet(b).ok().and_then(|p| conv::sliced_layers(b, &p).ok());
+            let sr = SlicedPacket::from_ethernet(b);
+            same_fault_as_strict("LaxSlicedPacket::from_ethernet", case, sr.as_ref().err().map(|e| e.cerr()), got.as_ref().ok().and_then(|g| g.1.as_ref()), &strict_want, &want);
+            let s = sr.ok().and_then(|p| conv::sliced_layers(b, &p).ok());
             same_as_strict("LaxSlicedPacket::from_ethernet", case, s.as_ref(), got.as_ref().ok());
             judge_lax("LaxSlicedPacket::from_ethernet", case, &want, got, lerr);
             case.at("LaxPacketHeaders::from_ethernet");
@@ -257,7 +294,10 @@ pub fn check_case(door: Door, b: &[u8], case: &mut Case) {
             case.at("LaxSlicedPacket::from_ether_type");
             let r = LaxSlicedPacket::from_ether_type(EtherType(t), b);
             let (got, lerr) = lax_sliced_result(b, Ok(&r));
-            let s = SlicedPacket::from_ether_type(EtherType(t), b).ok().and_then(|p| conv::sliced_layers(b, &p).ok());
+            let sr = SlicedPacket::from_ether_type(EtherType(t), b);
+            // (lax dispatches on the version nibble: only comparable where strict and lax reference stop at the same place)
+            same_fault_as_strict("LaxSlicedPacket::from_ether_type", case, sr.as_ref().err().map(|e| e.cerr()), got.as_ref().ok().and_then(|g| g.1.as_ref()), &strict_want, &want);
+            let s = sr.ok().and_then(|p| conv::sliced_layers(b, &p).ok());
             same_as_strict("LaxSlicedPacket::from_ether_type", case, s.as_ref(), got.as_ref().ok());
             judge_lax("LaxSlicedPacket::from_ether_type", case, &want, got, lerr);
             case.at("LaxPacketHeaders::from_ether_type");
@@ -293,7 +333,9 @@ pub fn check_case(door: Door, b: &[u8], case: &mut Case) {
             case.at("LaxSlicedPacket::from_ip");
             let r = LaxSlicedPacket::from_ip(b);
             let (got, lerr) = lax_sliced_result(b, r.as_ref().map_err(|e| e.cerr()));
-            let s = SlicedPacket::from_ip(b).ok().and_then(|p| conv::sliced_layers(b, &p).ok());
+            let sr = SlicedPacket::from_ip(b);
+            same_fault_as_strict("LaxSlicedPacket::from_ip", case, sr.as_ref().err().map(|e| e.cerr()), got.as_ref().ok().and_then(|g| g.1.as_ref()), &strict_want, &want);
+            let s = sr.ok().and_then(|p| conv::sliced_layers(b, &p).ok());
             same_as_strict("LaxSlicedPacket::from_ip", case, s.as_ref(), got.as_ref().ok());
             judge_lax("LaxSlicedPacket::from_ip", case, &want, got, lerr);
             case.at("LaxPacketHeaders::from_ip");
@@ -324,6 +366,7 @@ pub fn check_case(door: Door, b: &[u8], case: &mut Case) {
                 }
                 Some(v)
             });
+            same_fault_as_strict("LaxIpSlice::from_slice", case, IpSlice::from_slice(b).err().map(|e| e.cerr()), got.as_ref().ok().and_then(|g| g.1.as_ref()), &refdec::decode_ip_only(b, false, None), &wip);
             finish_single("LaxIpSlice::from_slice", case, &wip, r.as_ref().err().map(|e| e.cerr()), got, s);
 
             let w4 = refdec::decode_ip_only(b, true, Some(4));
@@ -341,6 +384,7 @@ pub fn check_case(door: Door, b: &[u8], case: &mut Case) {
                 conv::ipv4_layers(b, &p, &mut v).ok()?;
                 Some(v)
             });
+            same_fault_as_strict("LaxIpv4Slice::from_slice", case, Ipv4Slice::from_slice(b).err().map(|e| e.cerr()), got.as_ref().ok().and_then(|g| g.1.as_ref()), &refdec::decode_ip_only(b, false, Some(4)), &w4);
             finish_single("LaxIpv4Slice::from_slice", case, &w4, r.as_ref().err().map(|e| e.cerr()), got, s);
 
             let w6 = refdec::decode_ip_only(b, true, Some(6));
@@ -358,6 +402,7 @@ pub fn check_case(door: Door, b: &[u8], case: &mut Case) {
                 conv::ipv6_layers(b, &p, &mut v).ok()?;
                 Some(v)
             });
+            same_fault_as_strict("LaxIpv6Slice::from_slice", case, Ipv6Slice::from_slice(b).err().map(|e| e.cerr()), got.as_ref().ok().and_then(|g| g.1.as_ref()), &refdec::decode_ip_only(b, false, Some(6)), &w6);
             finish_single("LaxIpv6Slice::from_slice", case, &w6, r.as_ref().err().map(|e| e.cerr()), got, s6.clone());
 
             // Ipv6Slice::from_slice_lax: lax about the payload length, strict about the extension chain
